@@ -1,6 +1,7 @@
 /-
   Proofs/Mvp60LdInstr.lean — package R60d: the instructions of straight-line programs with loads (`Model.Mvp60.ldInstr`):
-  what their `Run` returns, and the step of the unpipelined machine on them.
+  what their `Run` returns, and the step of the unpipelined machine on them; `ret` as the last instruction, and the run
+  `seqL` in which that `ret` counts as a step that changes nothing (the machine drains what is in flight after it).
 -/
 import MajoranaVerif.Proofs.Mvp60SlBack
 import MajoranaVerif.Proofs.Mmu
@@ -18,7 +19,7 @@ theorem ld_cases (i : Gen.Instr) (h : ldInstr i = true) : slInstr i = true ∨ i
   simp only [ldInstr, Bool.and_eq_true, Bool.not_eq_true'] at h
   cases hm : isMemType i.instructionType with
   | true => exact Or.inr rfl
-  | false => left; simp only [slInstr, hm, h.1.2, h.2, Bool.not_false, Bool.and_self]
+  | false => left; simp only [slInstr, hm, h.1.1.2, h.1.2, Bool.not_false, Bool.and_self]
 
 set_option maxHeartbeats 4000000 in
 /-- a load changes a register -/
@@ -49,8 +50,20 @@ theorem ld_run (i : Gen.Instr) (h : ldInstr i = true) (c : Model.Context) (label
       | true =>
         have := hs.pcBranch hp
         simp only [ldInstr, Bool.and_eq_true, Bool.not_eq_true', Gen.InstructionType.IsBranch, Bool.or_eq_false_iff] at h
-        simp only [Proofs.Mvp4.isBranchType, h.1.2.1, h.1.2.2, Bool.or_self] at this
+        simp only [Proofs.Mvp4.isBranchType, h.1.1.2.1, h.1.1.2.2, Bool.or_self] at this
         cases this
+
+set_option maxHeartbeats 4000000 in
+/-- what an instruction writes to `x0` is 0 -/
+theorem run_zero (i : Gen.Instr) (c : Model.Context) (labels : GoMap String Word) (pc : Word) (mem : List Byte) (seq : Word)
+    (e : Gen.Execution) (hr : i.run c labels pc mem seq = .ok e) (h0 : e.Register = Gen.Reg.Zero) (hrc : e.RegisterChange = true) :
+    e.RegisterValue = 0#32 := by
+  cases i <;> unfold_instr at hr <;>
+    (simp only [Proofs.Mvp4.isRegisterChange_eq, pure, Except.pure, Proofs.Mvp4.ite_ok, Proofs.Mvp4.ite_pair, ite_self, bind, Except.bind, throw, throwThe, MonadExceptOf.throw] at hr
+     (repeat' split at hr) <;>
+       first
+         | (injection hr with hr; subst hr; simp only [Gen.Reg.Zero] at h0; first | (cases hrc; done) | rfl | contradiction)
+         | (exact absurd hr (by simp)))
 
 /-- an instruction that is not a load does not look at the bytes it is handed -/
 theorem run_nomem (i : Gen.Instr) (h : isMemType i.instructionType = false) (c : Model.Context) (labels : GoMap String Word)
@@ -125,6 +138,20 @@ theorem load_addrs_ne (i : Gen.Instr) (h : ldInstr i = true) (hm : isMemType i.i
   | sw_ op => simp [ldInstr, Gen.Instr.instructionType, Gen.op_sw.InstructionType, isStoreType] at h
   | _ => unfold_instr at hm; simp [isMemType] at hm
 
+set_option maxHeartbeats 4000000 in
+/-- an instruction of the class that is not a load always returns -/
+theorem ld_run_ok_nomem (i : Gen.Instr) (h : ldInstr i = true) (hm : isMemType i.instructionType = false)
+    (c : Model.Context) (labels : GoMap String Word) (pc : Word) (mem : List Byte) (seq : Word) :
+    ∃ e, i.run c labels pc mem seq = .ok e := by
+  unfold ldInstr at h
+  cases i <;> unfold_instr at h hm ⊢ <;>
+    first
+      | (simp [isMemType] at hm; done)
+      | (simp [isDivRem] at h; done)
+      | (simp [Gen.InstructionType.IsBranch, Gen.InstructionType.IsUnconditionalBranch, Gen.InstructionType.IsConditionalBranch] at h; done)
+      | (simp only [Proofs.Mvp4.isRegisterChange_eq, pure, Except.pure, Proofs.Mvp4.ite_ok, Proofs.Mvp4.ite_pair, ite_self, bind, Except.bind]
+         first | exact ⟨_, rfl⟩ | (split <;> exact ⟨_, rfl⟩))
+
 theorem mapM_readMem_some (flat : List Byte) : ∀ (addrs : List Word), (∀ a ∈ addrs, 0 ≤ a.toInt ∧ a.toInt.toNat < flat.length) →
     ∃ bytes, addrs.mapM (Model.Seq.readMem flat) = some bytes := by
   intro addrs
@@ -189,43 +216,140 @@ theorem ld_step (app : App) (hsm : app.instrs.length < 250) (a : Arch) (j : Nat)
     obtain ⟨c, hc⟩ := Proofs.Mvp4.stepTail_err (app := app) (a := a) he
     exact ⟨c, by rw [hstep, hc]⟩
 
+/-! ### `ret` as the last instruction -/
+
+/-- the instruction is a `ret` -/
+def isRet (i : Gen.Instr) : Bool := i.instructionType == Gen.InstructionType.Ret
+
+/-- a `ret` reads and writes nothing, and returns -/
+theorem ret_facts (i : Gen.Instr) (h : isRet i = true) :
+    i.readRegisters = [] ∧ i.writeRegisters = [] ∧ isMemType i.instructionType = false ∧
+    i.instructionType.IsBranch = false ∧ (∀ c seq, i.memoryRead c seq = []) ∧
+    ∀ c labels pc mem seq, ∃ e, i.run c labels pc mem seq = .ok e ∧ e.Return = true ∧ e.RegisterChange = false ∧
+      e.MemoryChange = false := by
+  unfold isRet at h
+  cases i <;> unfold_instr at h ⊢ <;>
+    first
+      | (simp at h; done)
+      | (refine ⟨?_, ?_, ?_, ?_, ?_, ?_⟩ <;> first | trivial | rfl | decide | (intros; trivial) | (intros; rfl) | (intros; exact ⟨_, rfl, rfl, rfl, rfl⟩))
+
+theorem ld_not_ret (i : Gen.Instr) (h : ldInstr i = true) : isRet i = false := by
+  simp only [ldInstr, Bool.and_eq_true, Bool.not_eq_true'] at h
+  exact h.1.2
+
+/-- an instruction of a program of the class is an instruction of `ldInstr`, or the `ret` at the end -/
+theorem ldr_cases (app : App) (h : StraightLineLdRet app = true) (k : Nat) (i : Gen.Instr) (hi : app.instrs[k]? = some i) :
+    ldInstr i = true ∨ (isRet i = true ∧ k + 1 = app.instrs.length) := by
+  simp only [StraightLineLdRet, Bool.and_eq_true, List.all_eq_true] at h
+  have hk : k < app.instrs.length := by
+    rcases Nat.lt_or_ge k app.instrs.length with h' | h'
+    · exact h'
+    · rw [List.getElem?_eq_none h'] at hi; cases hi
+  have h2 := h.2 i (List.mem_of_getElem? hi)
+  cases hr : isRet i with
+  | false =>
+    left
+    simp only [ldrInstr, Bool.and_eq_true, Bool.not_eq_true'] at h2
+    simp only [isRet] at hr
+    simp only [ldInstr, h2.1.1, h2.1.2, h2.2, hr, Bool.not_false, Bool.and_self]
+  | true =>
+    right
+    refine ⟨rfl, ?_⟩
+    apply Classical.byContradiction
+    intro hne
+    have hd : app.instrs.dropLast[k]? = some i := by
+      rw [List.dropLast_eq_take, List.getElem?_take]
+      simp only [show k < app.instrs.length - 1 by omega, if_true]
+      exact hi
+    have := ld_not_ret i (h.1 i (List.mem_of_getElem? hd))
+    rw [hr] at this; cases this
+
+theorem ldr_of_mem (app : App) (h : StraightLineLdRet app = true) (i : Gen.Instr) (hi : i ∈ app.instrs) : ldrInstr i = true := by
+  simp only [StraightLineLdRet, Bool.and_eq_true, List.all_eq_true] at h
+  exact h.2 i hi
+
+/-- the unpipelined machine stops at a `ret` -/
+theorem ret_step (app : App) (hsm : app.instrs.length < 250) (a : Arch) (j : Nat) (i : Gen.Instr) (hpc : a.pc = pcOf j)
+    (hi : app.instrs[j]? = some i) (hr : isRet i = true) : ∃ c, stepArch Proofs.Mvp4.dc app a = .halt .ret c := by
+  have hj : j < app.instrs.length := by
+    rcases Nat.lt_or_ge j app.instrs.length with h | h
+    · exact h
+    · rw [List.getElem?_eq_none h] at hi; cases hi
+  obtain ⟨_, _, _, _, hmr, hrun⟩ := ret_facts i hr
+  have hstep : stepArch Proofs.Mvp4.dc app a = Proofs.Mvp4.stepTail app a i [] := by
+    apply Proofs.Mvp4.stepArch_run
+    · rw [hpc]; exact instrAt4_pcOf app j (by omega) i hi
+    · rw [hmr]; rfl
+  obtain ⟨ex, hex⟩ := Proofs.Refine.cycles_ok i.instructionType
+  obtain ⟨e, he, hret, _, _⟩ := hrun a.ctx app.labels a.pc [] 0#32
+  obtain ⟨c, hc⟩ := Proofs.Mvp4.stepTail_ret (app := app) (a := a) he hex hret
+  exact ⟨c, by rw [hstep, hc]⟩
+
+/-! ### the unpipelined run, with a final `ret` counted as a step that changes nothing -/
+
+/-- the next state of the unpipelined machine; a `ret` goes on to the next pc with the context unchanged (the machines drain
+after a `ret`: what is in flight before it completes) -/
+def seqNextL (app : App) (a : Arch) : Option Arch :=
+  match stepArch Proofs.Mvp4.dc app a with
+  | .next a' _ => some a'
+  | .halt .ret _ => some ⟨a.ctx, a.pc + 4#32⟩
+  | .halt _ _ => none
+
+/-- the state after `k` such steps -/
+def seqL (app : App) : Nat → Arch → Option Arch
+  | 0, a => some a
+  | k + 1, a => (seqL app k a).bind (seqNextL app)
+
+theorem seqL_next {app : App} {k : Nat} {a0 a a' : Arch} {c : Model.Seq.StepCost} (h : seqL app k a0 = some a)
+    (hs : stepArch Proofs.Mvp4.dc app a = .next a' c) : seqL app (k + 1) a0 = some a' := by
+  simp only [seqL, h, Option.bind_some, seqNextL, hs]
+
+theorem seqL_ret {app : App} {k : Nat} {a0 a : Arch} {c : Model.Seq.StepCost} (h : seqL app k a0 = some a)
+    (hs : stepArch Proofs.Mvp4.dc app a = .halt .ret c) : seqL app (k + 1) a0 = some ⟨a.ctx, a.pc + 4#32⟩ := by
+  simp only [seqL, h, Option.bind_some, seqNextL, hs]
+
 /-- what is assumed of the program and of the unpipelined run from `a0` -/
 structure ProgLd (app : App) (a0 : Arch) : Prop where
   small : app.instrs.length < 250
   nofwd : ∀ g ∈ app.instrs, fwdOf g = {}
-  cls : StraightLineLd app = true
+  cls : StraightLineLdRet app = true
   pc0 : a0.pc = 0#32
   rat0 : a0.ctx.rat = false
   tx0 : a0.ctx.Transaction.entries = []
-  loads : ∀ j a, Proofs.Mvp4.seqIter app j a0 = some a → LoadsOk app a
-
-theorem ld_of_get (app : App) (h : StraightLineLd app = true) (k : Nat) (i : Gen.Instr) (hi : app.instrs[k]? = some i) :
-    ldInstr i = true := by
-  simp only [StraightLineLd, List.all_eq_true] at h
-  exact h i (List.mem_of_getElem? hi)
+  loads : ∀ j a, seqL app j a0 = some a → LoadsOk app a
+  z0 : GoMap.get1 a0.ctx.Registers Gen.Reg.Zero = 0#32
 
 /-- one more step of the unpipelined run: the state before, the instruction, the bytes it reads, its result -/
 theorem seq_succ (app : App) (a0 : Arch) (hp : ProgLd app a0) (j : Nat) (a a' : Arch)
-    (hj : Proofs.Mvp4.seqIter app j a0 = some a) (hpc : a.pc = pcOf j) (hjl : j ≤ app.instrs.length)
-    (hj' : Proofs.Mvp4.seqIter app (j + 1) a0 = some a') :
+    (hj : seqL app j a0 = some a) (hpc : a.pc = pcOf j) (hjl : j ≤ app.instrs.length)
+    (hj' : seqL app (j + 1) a0 = some a') :
     ∃ i bytes e, app.instrs[j]? = some i ∧ (i.memoryRead a.ctx 0#32).mapM (Model.Seq.readMem a.ctx.Memory) = some bytes ∧
       i.run a.ctx app.labels a.pc bytes 0#32 = .ok e ∧
       a' = ⟨if e.RegisterChange then Model.Seq.writeRegister a.ctx e else a.ctx, pcOf (j + 1)⟩ := by
   have hsm := hp.small
-  simp only [Proofs.Mvp4.seqIter, hj, Option.bind_some, Proofs.Mvp4.seqNext] at hj'
+  simp only [seqL, hj, Option.bind_some, seqNextL] at hj'
   rcases Nat.lt_or_ge j app.instrs.length with hlt | hge
   · obtain ⟨i, hi⟩ := get_lt app.instrs j hlt
-    obtain ⟨bytes, hb, h1, h2, h3⟩ := ld_step app hsm a j i hpc hi (ld_of_get app hp.cls j i hi) (hp.loads j a hj)
-    cases hr : i.run a.ctx app.labels a.pc bytes 0#32 with
-    | ok e =>
-      obtain ⟨c, hc⟩ := h1 e hr
+    rcases ldr_cases app hp.cls j i hi with hld | ⟨hret, _⟩
+    · obtain ⟨bytes, hb, h1, h2, h3⟩ := ld_step app hsm a j i hpc hi hld (hp.loads j a hj)
+      cases hr : i.run a.ctx app.labels a.pc bytes 0#32 with
+      | ok e =>
+        obtain ⟨c, hc⟩ := h1 e hr
+        rw [hc] at hj'
+        simp only [Option.some.injEq] at hj'
+        exact ⟨i, bytes, e, hi, hb, hr, hj'.symm⟩
+      | error f =>
+        cases f with
+        | err msg => obtain ⟨c, hc⟩ := h2 msg hr; rw [hc] at hj'; cases hj'
+        | panic w => obtain ⟨c, hc⟩ := h3 w hr; rw [hc] at hj'; cases hj'
+    · obtain ⟨c, hc⟩ := ret_step app hsm a j i hpc hi hret
       rw [hc] at hj'
       simp only [Option.some.injEq] at hj'
-      exact ⟨i, bytes, e, hi, hb, hr, hj'.symm⟩
-    | error f =>
-      cases f with
-      | err msg => obtain ⟨c, hc⟩ := h2 msg hr; rw [hc] at hj'; cases hj'
-      | panic w => obtain ⟨c, hc⟩ := h3 w hr; rw [hc] at hj'; cases hj'
+      obtain ⟨_, _, _, _, hmr, hrun⟩ := ret_facts i hret
+      obtain ⟨e, he, _, hrc, _⟩ := hrun a.ctx app.labels a.pc [] 0#32
+      refine ⟨i, [], e, hi, by rw [hmr]; rfl, he, ?_⟩
+      rw [← hj', hrc, hpc, pcOf_succ]
+      simp only [Bool.false_eq_true, if_false]
   · exfalso
     have : stepArch Proofs.Mvp4.dc app a = .halt .offEnd ⟨0, 0, 0, 0⟩ := by
       unfold stepArch
@@ -235,19 +359,19 @@ theorem seq_succ (app : App) (a0 : Arch) (hp : ProgLd app a0) (j : Nat) (a a' : 
     rw [this] at hj'; cases hj'
 
 /-- the states of the unpipelined run of a straight-line program: pc, memory, flags -/
-theorem seq_facts (app : App) (a0 : Arch) (hp : ProgLd app a0) : ∀ (j : Nat) (a : Arch), Proofs.Mvp4.seqIter app j a0 = some a →
+theorem seq_facts (app : App) (a0 : Arch) (hp : ProgLd app a0) : ∀ (j : Nat) (a : Arch), seqL app j a0 = some a →
     a.pc = pcOf j ∧ j ≤ app.instrs.length ∧ a.ctx.Memory = a0.ctx.Memory ∧ a.ctx.rat = false ∧ a.ctx.Transaction.entries = [] := by
   intro j
   induction j with
   | zero =>
     intro a h
-    simp only [Proofs.Mvp4.seqIter, Option.some.injEq] at h
+    simp only [seqL, Option.some.injEq] at h
     subst h
     exact ⟨by rw [hp.pc0]; rfl, Nat.zero_le _, rfl, hp.rat0, hp.tx0⟩
   | succ j ih =>
     intro a' h
-    cases hj : Proofs.Mvp4.seqIter app j a0 with
-    | none => simp only [Proofs.Mvp4.seqIter, hj, Option.bind_none] at h; cases h
+    cases hj : seqL app j a0 with
+    | none => simp only [seqL, hj, Option.bind_none] at h; cases h
     | some a =>
       obtain ⟨f1, f2, f3, f4, f5⟩ := ih a hj
       obtain ⟨i, bytes, e, hi, _, _, rfl⟩ := seq_succ app a0 hp j a a' hj f1 f2 h
@@ -257,9 +381,62 @@ theorem seq_facts (app : App) (a0 : Arch) (hp : ProgLd app a0) : ∀ (j : Nat) (
         · rw [List.getElem?_eq_none h'] at hi; cases hi
       refine ⟨rfl, hlt, ?_, ?_, ?_⟩ <;> (simp only; split <;> assumption)
 
+/-- `x0` is 0 along the unpipelined run -/
+theorem seq_zero (app : App) (a0 : Arch) (hp : ProgLd app a0) : ∀ (j : Nat) (a : Arch), seqL app j a0 = some a →
+    GoMap.get1 a.ctx.Registers Gen.Reg.Zero = 0#32 := by
+  intro j
+  induction j with
+  | zero =>
+    intro a h
+    simp only [seqL, Option.some.injEq] at h
+    subst h; exact hp.z0
+  | succ j ih =>
+    intro a' h
+    cases hj : seqL app j a0 with
+    | none => simp only [seqL, hj, Option.bind_none] at h; cases h
+    | some a =>
+      obtain ⟨f1, f2, _⟩ := seq_facts app a0 hp j a hj
+      obtain ⟨i, bytes, e, hi, _, he, rfl⟩ := seq_succ app a0 hp j a a' hj f1 f2 h
+      simp only
+      split
+      · rename_i hrc
+        simp only [Model.Seq.writeRegister, Proofs.Mvp4.get1_set]
+        split
+        · rename_i heq
+          exact run_zero i a.ctx app.labels a.pc bytes 0#32 e he (eq_of_beq heq).symm hrc
+        · exact ih a hj
+      · exact ih a hj
+
+/-- an instruction of the class, handed the bytes of its addresses, returns -/
+theorem ld_run_total (i : Gen.Instr) (h : ldInstr i = true) (c : Model.Context) (labels : GoMap String Word) (pc : Word) (seq : Word)
+    (flat bytes : List Byte) (hb : (i.memoryRead c 0#32).mapM (Model.Seq.readMem flat) = some bytes) :
+    ∃ e, i.run c labels pc bytes seq = .ok e := by
+  cases hm : isMemType i.instructionType with
+  | true => exact load_run_total i h hm c labels pc seq flat bytes hb
+  | false => exact ld_run_ok_nomem i h hm c labels pc bytes seq
+
+/-- **the unpipelined run of a program of the class never stops before the end** -/
+theorem seq_total (app : App) (a0 : Arch) (hp : ProgLd app a0) : ∀ j, j ≤ app.instrs.length →
+    ∃ a, seqL app j a0 = some a := by
+  intro j
+  induction j with
+  | zero => intro _; exact ⟨a0, rfl⟩
+  | succ j ih =>
+    intro hj
+    obtain ⟨a, ha⟩ := ih (by omega)
+    obtain ⟨f1, _⟩ := seq_facts app a0 hp j a ha
+    obtain ⟨i, hi⟩ := get_lt app.instrs j (by omega)
+    rcases ldr_cases app hp.cls j i hi with hld | ⟨hret, _⟩
+    · obtain ⟨bytes, hb, h1, _⟩ := ld_step app hp.small a j i f1 hi hld (hp.loads j a ha)
+      obtain ⟨e, he⟩ := ld_run_total i hld a.ctx app.labels a.pc 0#32 a.ctx.Memory bytes hb
+      obtain ⟨cst, hc⟩ := h1 e he
+      exact ⟨_, seqL_next ha hc⟩
+    · obtain ⟨c, hc⟩ := ret_step app hp.small a j i f1 hi hret
+      exact ⟨_, seqL_ret ha hc⟩
+
 /-- a step of the unpipelined run changes only the register its instruction writes -/
 theorem seq_frame (app : App) (a0 : Arch) (hp : ProgLd app a0) (j : Nat) (a a' : Arch) (i : Gen.Instr)
-    (hj : Proofs.Mvp4.seqIter app j a0 = some a) (hj' : Proofs.Mvp4.seqIter app (j + 1) a0 = some a')
+    (hj : seqL app j a0 = some a) (hj' : seqL app (j + 1) a0 = some a')
     (hi : app.instrs[j]? = some i) (r : Reg) (hr : r ∉ i.writeRegisters) :
     GoMap.get1 a'.ctx.Registers r = GoMap.get1 a.ctx.Registers r := by
   obtain ⟨f1, f2, _⟩ := seq_facts app a0 hp j a hj
